@@ -293,8 +293,10 @@ pub fn run_stream<W: Write>(w: &mut W, id: usize, rng: &mut Rng, case: &Case) {
             }
             v
         }
+        // 1 = identical; 2 = identical only modulo trailing empty lines (known finding KF-C14-1); 0 = different
+        let strict = o1 == o2 && o2 == o3;
         let (o1, o2, o3) = (strip(o1), strip(o2), strip(o3));
-        let coll = (o1 == o2 && o2 == o3 && same_final) as u8;
+        let coll: u8 = if !(o1 == o2 && o2 == o3 && same_final) { 0 } else if strict { 1 } else { 2 };
         let mut o = format!("X14 {} ", limit);
         lines_rec(&drained2, &mut o);
         lines_rec(a2.lines(), &mut o);
